@@ -7,7 +7,6 @@ package ber
 
 import (
 	"errors"
-	"fmt"
 	"reflect"
 	"strconv"
 	"strings"
@@ -347,136 +346,4 @@ func (e *refEnc) locate(off int) string {
 		}
 	}
 	return best
-}
-
-// ---------------------------------------------------------------------
-// generic TLV walker: structural well-formedness of a definite-length BER
-// element (X.690 8.1), with the DER-like minimality the property demands.
-
-type tlvErr struct{ what, detail string }
-
-func (e *tlvErr) Error() string { return e.what + ": " + e.detail }
-
-// walkTLV checks that b is exactly one well-formed element; returns the
-// number of elements visited.
-func walkTLV(b []byte) (int, error) {
-	n, used, err := walkOne(b, 0)
-	if err != nil {
-		return n, err
-	}
-	if used != len(b) {
-		return n, &tlvErr{"trailing", fmt.Sprintf("element occupies %d of %d octets", used, len(b))}
-	}
-	return n, nil
-}
-
-func walkOne(b []byte, depth int) (count, used int, err error) {
-	if depth > 200 {
-		return 0, 0, &tlvErr{"depth", "nesting deeper than 200"}
-	}
-	if len(b) < 2 {
-		return 0, 0, &tlvErr{"truncated", "less than 2 octets"}
-	}
-	class := int(b[0] >> 6)
-	constructed := b[0]&0x20 != 0
-	tag := uint64(b[0] & 0x1f)
-	off := 1
-	if tag == 31 {
-		tag = 0
-		first := true
-		for {
-			if off >= len(b) {
-				return 0, 0, &tlvErr{"truncated", "tag number runs off"}
-			}
-			c := b[off]
-			if first && c == 0x80 {
-				return 0, 0, &tlvErr{"tag-not-minimal", "leading 0x80 in tag number"}
-			}
-			first = false
-			if tag>>57 != 0 {
-				return 0, 0, &tlvErr{"tag-overflow", "tag number > 64 bits"}
-			}
-			tag = tag<<7 | uint64(c&0x7f)
-			off++
-			if c&0x80 == 0 {
-				break
-			}
-		}
-		if tag < 31 {
-			return 0, 0, &tlvErr{"tag-not-minimal", "high-tag form for tag < 31"}
-		}
-	}
-	if off >= len(b) {
-		return 0, 0, &tlvErr{"truncated", "no length octet"}
-	}
-	var l int
-	if b[off] < 128 {
-		l = int(b[off])
-		off++
-	} else {
-		n := int(b[off] & 0x7f)
-		off++
-		if n == 0 {
-			return 0, 0, &tlvErr{"indefinite", "indefinite length"}
-		}
-		if n > 4 || off+n > len(b) {
-			return 0, 0, &tlvErr{"truncated", "length octets run off / too many"}
-		}
-		if b[off] == 0 {
-			return 0, 0, &tlvErr{"len-not-minimal", "leading zero length octet"}
-		}
-		for i := 0; i < n; i++ {
-			l = l<<8 | int(b[off+i])
-		}
-		if l < 128 {
-			return 0, 0, &tlvErr{"len-not-minimal", "long form for length < 128"}
-		}
-		off += n
-	}
-	if off+l > len(b) {
-		return 0, 0, &tlvErr{"truncated", fmt.Sprintf("declared length %d exceeds the %d octets available", l, len(b)-off)}
-	}
-	content := b[off : off+l]
-	count = 1
-	if constructed {
-		p := 0
-		for p < len(content) {
-			c, u, err := walkOne(content[p:], depth+1)
-			count += c
-			if err != nil {
-				return count, 0, err
-			}
-			p += u
-		}
-		if p != len(content) {
-			return count, 0, &tlvErr{"children", "children do not sum to the parent length"}
-		}
-	} else if class == 0 {
-		switch tag {
-		case 0:
-			return count, 0, &tlvErr{"universal-0", "universal tag 0 (end-of-contents) used for a value"}
-		case 1:
-			if l != 1 || (content[0] != 0 && content[0] != 0xff) {
-				return count, 0, &tlvErr{"boolean", fmt.Sprintf("content %x", content)}
-			}
-		case 2, 10:
-			if l == 0 {
-				return count, 0, &tlvErr{"integer", "empty content"}
-			}
-			if l > 1 && ((content[0] == 0 && content[1]&0x80 == 0) || (content[0] == 0xff && content[1]&0x80 != 0)) {
-				return count, 0, &tlvErr{"integer-not-minimal", fmt.Sprintf("content %x", content)}
-			}
-		case 3:
-			if l == 0 || content[0] > 7 || (l == 1 && content[0] != 0) {
-				return count, 0, &tlvErr{"bitstring-unused", fmt.Sprintf("first octet %x of %d", content[:min(1, l)], l)}
-			}
-		case 5:
-			if l != 0 {
-				return count, 0, &tlvErr{"null", "non-empty NULL"}
-			}
-		case 16, 17:
-			return count, 0, &tlvErr{"constructed-bit", "SEQUENCE/SET encoded primitive"}
-		}
-	}
-	return count, off + l, nil
 }
